@@ -206,7 +206,7 @@ def analyze(template: BoundTemplate, *, include_partials: bool) -> TemplateAnaly
             _just_globals = partial_name in seen
             visible = set(partial.in_scope)
             if partial.scope != PartialScope.ISOLATED:
-                visible.update(*root_scope.stack)
+                visible.update(*scope.stack)
             partial_key = (partial.key, frozenset(visible))
             if partial_key in seen[partial_name]:
                 # We've visited this partial template before with the same
@@ -219,7 +219,7 @@ def analyze(template: BoundTemplate, *, include_partials: bool) -> TemplateAnaly
             partial_scope = (
                 _StaticScope(set(partial.in_scope))
                 if partial.scope == PartialScope.ISOLATED
-                else root_scope.push(set(partial.in_scope))
+                else scope.push(set(partial.in_scope))
             )
 
             for child in node.children(
@@ -334,7 +334,7 @@ async def analyze_async(
             _just_globals = partial_name in seen
             visible = set(partial.in_scope)
             if partial.scope != PartialScope.ISOLATED:
-                visible.update(*root_scope.stack)
+                visible.update(*scope.stack)
             partial_key = (partial.key, frozenset(visible))
             if partial_key in seen[partial_name]:
                 # We've visited this partial template before with the same
@@ -347,7 +347,7 @@ async def analyze_async(
             partial_scope = (
                 _StaticScope(set(partial.in_scope))
                 if partial.scope == PartialScope.ISOLATED
-                else root_scope.push(set(partial.in_scope))
+                else scope.push(set(partial.in_scope))
             )
 
             for child in await node.children_async(
